@@ -960,16 +960,18 @@ def streams(rng, tier, boost):
     pre_s, es, ts, fs = pool_ops(2, 1, 1)
     alpha_s = alphabet(es, ts, fs, [-2, -1, 0, 1, 2])
     explore(rng, [[CDOC]] + pre_s, alpha_s, (5 if thorough else 4) + (1 if boost > 1 and not thorough else 0), 4000 if thorough else 1500,
-            'exhaustive-tiny', out, 3000 if thorough else 600)
+            'exhaustive-tiny', out, 3000 if thorough else 400)
     pre_m, em, tm, fm = pool_ops(3, 2, 1)
     alpha_m = alphabet(em, tm, fm, [-3, -1, 0, 1, 2, 4])
-    explore(rng, [[CDOC]] + pre_m, alpha_m, 4 if thorough else 3, 2500 if thorough else 500, 'exhaustive-small', out, 1500 if thorough else 300)
+    # quick: every state after one operation and a sample of 250 of the states after two (all of them in the thorough tier)
+    explore(rng, [[CDOC]] + pre_m, alpha_m, 4 if thorough else 3, 2500 if thorough else 250 * boost, 'exhaustive-small', out,
+            1500 if thorough else 200)
     # (b) random histories
-    n = (1500 if not thorough else 12000) * boost
+    n = (1200 if not thorough else 12000) * boost
     for i in range(n):
         out.append(('random', rand_history(rng, rng.choice([3, 6, 10, 20, 30, 40]), 0.02, rng.random() < 0.3, rng.random() < 0.3)))
     # (c) malformed
-    for i in range((400 if not thorough else 3000) * boost):
+    for i in range((300 if not thorough else 3000) * boost):
         out.append(('malformed', rand_history(rng, rng.choice([2, 4, 8, 16]), 0.35, rng.random() < 0.5, rng.random() < 0.3)))
     return out
 
